@@ -517,3 +517,13 @@ def _g_cck_expand(tier, rnd):
     for rec in cuckoo_states(tier, rnd, CCK):
         for script in ([0] * 12, [rnd.randrange(4) for _ in range(12)]):
             yield {"self": rec, "args": {}, "rand": script}
+
+
+@gen("CountMinSketch.frombytes")
+def _g_cms_frombytes(tier, rnd):
+    import struct
+    for w in (1, 2, 3):
+        for d in (1, 2):
+            cells = [rnd.randrange(-5, 50) for _ in range(w * d)]
+            blob = struct.pack(f"{w * d}i", *cells) + struct.pack("IIq", w, d, rnd.randrange(0, 1000))
+            yield {"self": None, "args": {"b": {"__bytes__": blob.hex()}, "hash_function": None}}
